@@ -33,7 +33,7 @@ RULE = (
     "table with at least one paired row and one unpaired row; distinct = (frame id, task, divisions, statuses present, #scenes, matched-FP present?)"
 )
 ASSUMPTIONS = ["ground-truth uuids are unique inside a frame", "yaw-only rotations"]
-DECIDING = ["analyzer.tables_judged", "analyzer.rows_checked", "analyzer.paired_rows", "C19.status.TP", "C19.status.FP", "C19.status.TN", "C19.status.FN", "C19.matched_fp_rows", "get_object_status.judged", "C19.error_arrays_checked", "C19.summaries_checked", "C19.selections_checked", "C19.map_frame_tables", "C19.analyses_with_selections", "C19.ego2map_checked", "C19.pickle_roundtrips", "analyzer.clears", "C19.area_rows_checked", "C19.combined_selections_checked"]
+DECIDING = ["analyzer.tables_judged", "analyzer.rows_checked", "analyzer.paired_rows", "C19.status.TP", "C19.status.FP", "C19.status.TN", "C19.status.FN", "C19.matched_fp_rows", "get_object_status.judged", "C19.error_arrays_checked", "C19.summaries_checked", "C19.selections_checked", "C19.map_frame_tables", "C19.analyses_with_selections", "C19.ego2map_checked", "C19.pickle_roundtrips", "analyzer.clears", "C19.area_rows_checked", "C19.combined_selections_checked", "C19.read_only_views_used"]
 JOBS = {"quick": 4, "thorough": 14}
 
 
@@ -415,6 +415,15 @@ def run(ctx: Ctx) -> None:
                     after = [[(id(fr), len(fr.object_results), len(fr.frame_ground_truth.objects), len(fr.pass_fail_result.tp_object_results), len(fr.pass_fail_result.fp_object_results), len(fr.pass_fail_result.tn_objects), len(fr.pass_fail_result.fn_objects)) for fr in frames] for frames in scenes_]
                     ctx.count("C19.analyses_with_selections")
                     ctx.check(before == after, "C19/analysis_modifies_the_tabulated_frame_results", dict(before=before[0][:3], after=after[0][:3]), "analyzer")
+                    # read-only views of the table (sorted copies, head / tail, shape) are queries too
+                    for col in ("confidence", "x", "distance"):
+                        try:
+                            an.sortby(col)
+                            an.sortby([col, "frame"], ascending=True)
+                        except Exception:  # noqa: BLE001
+                            ctx.count("C19.analyze_exceptions")
+                    an.head(3), an.tail(3), an.shape()
+                    ctx.count("C19.read_only_views_used")
                     judge_table(ctx, an, scenes_)  # the table must still be the tabulation of the frame results
                     for frames in scenes_:
                         if len({fr.frame_name for fr in frames}) == len(frames):
